@@ -239,6 +239,46 @@ func RunDec(c *core.Ctx) {
 			})
 			c.Check(nPanic == 0 && nAssert == 1, "BND.nopanic", m.Q()+" unmarshal closure", "no panic call; the only type assertion is the prologue's message cast",
 				fmt.Sprintf("%d panic call(s) and %d type assertion(s) in the decoder", nPanic, nAssert), mpos, src)
+			// ALIAS.nowrite: the decoder never stores into its input
+			var wr []string
+			ast.Inspect(m.Unmarshal.Body, func(x ast.Node) bool {
+				check := func(l ast.Expr) {
+					for {
+						switch t := ast.Unparen(l).(type) {
+						case *ast.IndexExpr:
+							l = t.X
+							continue
+						case *ast.SliceExpr:
+							l = t.X
+							continue
+						}
+						break
+					}
+					if dm.Walker.is(l, dm.Walker.buf) {
+						wr = append(wr, "store into the input buffer")
+					}
+				}
+				switch t := x.(type) {
+				case *ast.AssignStmt:
+					for _, l := range t.Lhs {
+						if _, isIdx := ast.Unparen(l).(*ast.IndexExpr); isIdx {
+							check(l)
+						}
+					}
+				case *ast.CallExpr:
+					if id, ok := t.Fun.(*ast.Ident); ok && id.Name == "copy" && len(t.Args) == 2 {
+						check(t.Args[0])
+					}
+					if id, ok := t.Fun.(*ast.Ident); ok && id.Name == "append" && len(t.Args) >= 1 {
+						// append(dAtA[:k], …) would write into the input's backing array
+						if se, ok := ast.Unparen(t.Args[0]).(*ast.SliceExpr); ok && dm.Walker.is(se.X, dm.Walker.buf) {
+							wr = append(wr, "append onto a slice of the input buffer")
+						}
+					}
+				}
+				return true
+			})
+			c.Check(len(wr) == 0, "ALIAS.nowrite", m.Q()+" unmarshal closure", "no store, copy or append targets the input buffer", strings.Join(wr, "; "), mpos, src)
 			a32 := map[string]bool{}
 			for _, a := range dm.Walker.alloc32 {
 				a32[a] = true
@@ -314,6 +354,16 @@ func RunDec(c *core.Ctx) {
 						continue
 					}
 					c.Check(eff == want, "DEC.form", con, want, fmt.Sprintf("decoder does: %s ; the wire spec demands: %s", eff, want), pos, src)
+					if k := f.Desc.Kind(); (k == protoreflect.StringKind || k == protoreflect.BytesKind) && !f.Desc.IsMap() {
+						okA := eff == want
+						c.Check(okA, "ALIAS.in", con, "payload bytes reach the message only through string(...) conversion or a copy into a fresh buffer", "payload bytes are not copied by one of the recognised copy forms: "+eff, pos, src)
+					}
+					if f.Desc.IsMap() {
+						vk, kk := f.Desc.MapValue().Kind(), f.Desc.MapKey().Kind()
+						if vk == protoreflect.StringKind || vk == protoreflect.BytesKind || kk == protoreflect.StringKind {
+							c.Check(eff == want, "ALIAS.in", con, "map key/value bytes are copied (string conversion / make+copy)", "map key/value payload is not copied by a recognised copy form: "+eff, pos, src)
+						}
+					}
 				}
 			}
 		}
